@@ -2,7 +2,8 @@
 (* Judges recordings of the real Surface / SurfaceMut methods (harness      *)
 (* c07-replay) against Surface.tla: for every program (parent, chain) and   *)
 (* every route (owned, borrowed, mutable, nested owned) the view size, the  *)
-(* row-major iteration, get at every position incl. outside, the addresses *)
+(* row-major iteration (also resumed after k steps and consumed by          *)
+(* for_each / count / last, and nth), get at every position, the addresses *)
 (* handed out by iter_mut (as parent offsets: exactly the window cells,     *)
 (* each once), and the parent after fill / fill_with / clear / insert /     *)
 (* set, and map.                                                            *)
@@ -17,6 +18,11 @@ Verdict(r) ==
            sizeOK == (r.h = v.h /\ r.w = v.w) \/ (r.h * r.w = 0 /\ Cells(v) = 0)
        IN IF ~sizeOK THEN "size"
           ELSE IF N(r.iter) # Iter(v, r.wp) THEN "iter"
+          \* an iterator advanced by k steps yields the remaining items, whatever method consumes it
+          ELSE IF \E j \in 1..Len(r.rest) : N(r.rest[j]) # SubSeq(Iter(v, r.wp), j, Cells(v)) THEN "iter-resumed"
+          ELSE IF \E j \in 1..Len(r.counts) : r.counts[j] # Cells(v) - (j - 1) THEN "iter-count"
+          ELSE IF \E j \in 1..Len(r.lasts) : r.lasts[j] # (IF j - 1 >= Cells(v) THEN -1 ELSE Iter(v, r.wp)[Cells(v)]) THEN "iter-last"
+          ELSE IF \E j \in 1..Len(r.nths) : r.nths[j] # (IF j - 1 >= Cells(v) THEN -1 ELSE Iter(v, r.wp)[j]) THEN "iter-nth"
           ELSE IF N(r.gets) # [n \in 1..((v.h + 1) * (v.w + 1)) |-> Get(v, r.wp, (n - 1) \div (v.w + 1), (n - 1) % (v.w + 1))] THEN "get"
           ELSE IF r.mutable /\ N(r.addrs) # Iter(v, r.wp) THEN "iter_mut-addresses"
           ELSE IF r.mutable /\ N(r.fill) # AfterFill(v, r.hp, r.wp, 99) THEN "fill"
